@@ -948,6 +948,10 @@ def run(ctx):
     # compute the cells of the hand model for ALL array contents and every NumOps instance (189 tie theorems)
     tie_names = (H / "tie_names.txt").read_text().split()
     ctx.translate_and_tie([("src/linalg.c", tie_names)], "GenLinalg", sorted(H.glob("TieLinalg*.v")), have=1, real=8)
+    # ... and the same kernels with their loops as Fixpoints (tools/c2arr.py), proved equal to the hand model for EVERY dimension
+    # that is an a_uint value and every array (harness/C09/TieLoop*.v)
+    import varr
+    varr.arr_translate_and_tie(ctx, "C09")
     okf, outs, failed = ctx.coq_build(["C09/LinalgFloat.v"], timeout=600)
     if not okf:
         raise vlib.CheckError("C09/LinalgFloat.v does not compile: " + " ".join(outs.get("C09/LinalgFloat.v", "").split())[-400:])
@@ -1157,9 +1161,18 @@ META = {
             "positions, stale result cells of the opposite sign) for every kernel that copies or moves values, and the exact definition is "
             "evaluated bit for bit on every line of that run; the glue run (tools/vglue.py, harness/glue/cfg_C09.c) builds every kernel "
             "for a_real = float, double and long double with ASan/UBSan and requires exactly the integers of the same reference definition "
-            "on all shapes 0..5 and the tile-edge shapes, each array an exactly-sized block between guard bytes.",
+            "on all shapes 0..5 and the tile-edge shapes, each array an exactly-sized block between guard bytes. "
+            "LOOP TIE (harness/C09/TieLoop1.v .. TieLoop6.v, 19 theorems re-proved on every run): all 19 kernels are regenerated from the "
+            "current linalg.c with their 64 loops as Fixpoints (tools/c2arr.py: one Fixpoint per loop level, arrays as lists with checked "
+            "access, a_uint counters with ++ checked to fit 32 bits, the a_size offsets (a_size)n*r, nr+c, N*i, row*col checked to fit 64 "
+            "bits) and proved equal to the cursor-level model LinalgDefs.v - the one the theorems above are about - for every NumOps "
+            "instance and EVERY dimension that is an a_uint value (U32, the model's own hypothesis), every array of any length (an "
+            "access outside an array: the model's OutOfBounds on the same run) and any initial write count; the model's OutOfFuel is "
+            "excluded by the measure each loop lemma carries.",
     "note": "Trusted: Coq kernel/vm_compute; extraction (ExtrOcamlBasic only) + OCaml/C drivers; gcc, ASan/UBSan, mmap, clang -ast-dump. The cursor-level "
-            "models coq/C09/LinalgDefs.v and LinalgWide.v are hand-written and tied to the C by correspondence on the generated shapes only. "
+            "models coq/C09/LinalgDefs.v and LinalgWide.v are hand-written; LinalgDefs.v is tied to the C by correspondence on the generated "
+            "shapes and by the translator ties (unrolled: dimensions 0..3; loops as Fixpoints: every dimension), in which the translators "
+            "tools/c2coq.py and tools/c2arr.py are trusted to read the C right - their output is proved equal to the model, not to the C. "
             "a_uint is modelled as 32 bit and a_size as 64 bit with explicit wrap at every integer offset computation (theorems hold for "
             "dimensions < 2^32 - exactly the representable ones); pointer steps are element offsets without wrap; integer values are carried "
             "in nat. The tie exercises offsets >= 2^32 only for diag1/diag2; for T1, T2, diag and the products that would need >= 32 GiB of "
@@ -1171,6 +1184,7 @@ META = {
             "binary32), which is a differential test on generated shapes.",
     "technique": "Rocq proof (loop invariants over cursor arithmetic with explicit 32/64-bit wrap, induction on dimensions) + "
                  "linalg.c re-translated on every run for every shape with dimensions 0..3 (loops unrolled, arrays exactly sized) and proved equal "
-                 "to the model for all contents (388 tie theorems) + extracted-model (Z, N-indexed sparse) and PrimFloat vs C correspondence",
+                 "to the model for all contents (388 tie theorems), and re-translated with its loops as Fixpoints and proved equal to the model for "
+                 "every dimension (19 tie theorems) + extracted-model (Z, N-indexed sparse) and PrimFloat vs C correspondence",
     "category": "proof",
 }
